@@ -332,6 +332,17 @@ def run_gevp_obs_variant(pe, acc, case, antisym):
     C = make_corr(pe, N, T, ('obs', antisym), antisym=antisym)      # different data per variant: two different matrices of the same size are solved one after the other
     Csym = C.matrix_symmetric() if antisym else C
     G = {t: sym(mean_matrix(C, t)) for t in range(T)}
+    # call history inside this case: the same request (same t0, vector_obs=True) was made before on OTHER matrices - one of the same
+    # size whose eigenvectors point elsewhere (overlaps rotated by a fixed matrix) and one of another size
+    R = np.eye(N) + 0.3 * np.triu(np.ones((N, N)), 1)
+    P = pe.Corr([R @ c @ R.T for c in make_corr(pe, N, T, ('pollute', antisym)).content])
+    Q = make_corr(pe, N + 1 if N < 3 else N - 1, T, ('pollute-size', antisym))
+    for t0 in (1, 2):
+        for pol in (P, Q):
+            try:
+                pol.GEVP(t0, vector_obs=True)
+            except Exception as e:
+                acc.fail('gevp-obs:raised', dict(case, t0=t0, polluter=pol.N), 'GEVP(vector_obs=True) on an exact %dx%d matrix raised %r' % (pol.N, pol.N, e))
     for t0 in (1, 2):
         for srt, ts in (('Eigenvalue', None), ('Eigenvector', t0 + 2), (None, t0 + 2)):
             sub = dict(case, t0=t0, sort=srt, ts=ts)
